@@ -56,6 +56,10 @@ type shape struct {
 	Hash       crypto.Hash
 	// Parts: ids of the single-hazard shapes this multi-hazard shape combines
 	Parts []string
+	// InName, when set, is the base name of the scratch input file instead of
+	// "input"+Ext (OpenPGP inline messages carry it in the literal data packet);
+	// a separate output still goes to "output"+Ext
+	InName string
 }
 
 type caseSpec struct {
@@ -184,6 +188,9 @@ func runCase(e *env, sh *shape, cs caseSpec) {
 	}
 	dir, in := e.fresh(sh.Ext)
 	defer os.RemoveAll(dir)
+	if sh.InName != "" {
+		in = filepath.Join(dir, sh.InName)
+	}
 	orig := sh.Build()
 	if err := os.WriteFile(in, orig, 0o644); err != nil {
 		panic(err)
